@@ -177,6 +177,8 @@ func runPoints(c *drv.Ctx, lp *LabProp, l *lab.Lab, pts []*Point) {
 		for j, m := range r.mode {
 			key := r.v.Name + "/" + modeKey(m)
 			switch {
+			case o.BadResp != "":
+				drv.Inconclusive("a worker response could not be decoded (harness problem): %s", o.BadResp)
 			case o.Hang:
 				r.pt.Hang[key] = true
 			case o.Died != "":
